@@ -134,6 +134,13 @@ pub fn run(seed: u64, n: usize, out: &mut Out) {
         let input = case_input_json(&c);
         let coq_args = case_coq_args(&c);
         out.add(Case { input: input.clone(), coq: format!("run_exec {coq_args}"), imp: imp.clone(), nontrivial, key: format!("{done}:{}", t.text) });
+        out.add_info(Case {
+            input: input.clone(),
+            coq: format!("run_hyps {} {}", crate::irprint::query(&c.indexed.ir_query), crate::irprint::args(&c.args)),
+            imp: String::new(),
+            nontrivial: false,
+            key: format!("h{done}"),
+        });
         out.add_spec(
             Case { input: input.clone(), coq: format!("run_sem {coq_args}"), imp: imp.clone(), nontrivial, key: format!("s{done}:{}", t.text) },
             if t.known { Some("K-min-count-observed".to_string()) } else { None },
